@@ -26,6 +26,22 @@ open Martian.FormatCall (tLP tRP tEq)
 open Martian.FormatDecl (AllOK allOK_cons allOK_tail)
 open Martian.FormatStage (threadsTokOK resRaw)
 
+/-! ## with the exact reader the parameterised readers are the readers of `Martian.FormatRes` -/
+
+theorem pResListR_exact (ts : List Tok) (acc : Res) : pResListR readGBTok ts acc = pResList ts acc := by
+  fun_induction pResList ts acc <;>
+    first | (simp_all [pResListR]; done) | (unfold pResListR; simp_all; done)
+
+theorem pResourcesR_exact (ts : List Tok) : pResourcesR readGBTok ts = pResources ts := by
+  unfold pResourcesR pResources
+  simp only [pResListR_exact]
+  rfl
+
+theorem pTailR_exact (ts : List Tok) : pTailR readGBTok ts = pTail ts := by
+  unfold pTailR pTail
+  simp only [pResourcesR_exact]
+  rfl
+
 /-! ## range -/
 
 theorem pResListR_range (rd : Tok → Option Int) : ∀ (n : Nat) (ts : List Tok) (acc r : Res) (rest : List Tok), ts.length ≤ n →
@@ -265,6 +281,32 @@ open Martian.FormatDecl (Param AllOK allOK_cons allOK_tail pInParams pOutParams 
   pOutParams_range toksParams pInParams_toks pOutParams_toks headKw_in_outs sIn sOut)
 open Martian.FormatRes (Lang Res pSrc wfField wfRetain toksSrc toksTail pSrc_toks NotId sStage sSrc sUsing
   sRetain ReadsBack readGB32Tok tokGB)
+
+/-! ## with the exact reader `pStageAllR` is `pStageAll` -/
+
+theorem pStageAllR_exact (ts : List Tok) : pStageAllR Martian.FormatRes.readGBTok ts = pStageAll ts := by
+  have h1 : ∀ f name ts, pStageBodyR Martian.FormatRes.readGBTok f name ts = pStageBody f name ts := by
+    intro f name ts
+    unfold pStageBodyR pStageBody
+    simp only [Martian.FormatRes.pTailR_exact]
+    rfl
+  have h2 : ∀ ts, pStageR Martian.FormatRes.readGBTok ts = pStage ts := by
+    intro ts
+    unfold pStageR pStage
+    simp only [h1]
+    rfl
+  unfold pStageAllR pStageAll
+  rw [h2]
+  rfl
+
+/-- the model reader of section StageDeclarations is the parameterised reader with the exact
+reading of `mem_gb` / `vmem_gb` -/
+theorem parseStage_eq (src : Bytes) :
+    parseStage src = (lexAll src).bind (pStageAllR Martian.FormatRes.readGBTok) := by
+  unfold parseStage
+  congr 1
+  funext ts
+  exact (pStageAllR_exact ts).symm
 
 /-! ## range -/
 
